@@ -156,6 +156,22 @@ def observe(case):
         got2 = s._compute_timestep()
     except Exception as e:
         got2 = 'exc:' + repr(e)
+    # the same through a start-up damping history, as Solver.solve() drives
+    # it: dt <- _get_timestep() once per iteration while count grows
+    hist = []
+    nd = case['idx'] % 7
+    if nd and info['exc'] is None:
+        s2 = Solver(dim=case['dim'], integrator=integ, dt=case['dt'],
+                    adaptive_timestep=True, cfl=case['cfl'], n_damp=nd,
+                    tf=1e9)
+        try:
+            for cnt in range(nd + 2):
+                s2.count = cnt
+                hist.append(float(s2._compute_timestep()))
+                s2.dt = s2._get_timestep()
+        except Exception as e:
+            hist.append('exc:' + repr(e))
+    info['damped_history'] = hist
     return got, got2, info
 
 
@@ -240,6 +256,16 @@ def work(item):
                     case=case))
             else:
                 c('solver_agree')
+            for j, g3 in enumerate(info.get('damped_history', ())):
+                c('solver_damped_history_steps')
+                if not isinstance(g3, float) or \
+                        abs(g3 - want2) > 1e-9 * abs(want2):
+                    res['violations'].append(dict(
+                        key='solver-compute-timestep:damped-start',
+                        what='iteration %d of a run with n_damp=%d: Solver.'
+                        '_compute_timestep=%r, expected %r (%s)' % (
+                            j, case['idx'] % 7, g3, want2, why), case=case))
+                    break
         if case['idx'] % 5000 == 0:
             res['samples'].append(dict(case=case, want=want, got=got))
     return res
